@@ -328,7 +328,7 @@ func cmdKeys(args []string) int {
 	}
 	// ---- pem block combinations
 	k, _ := cert.ParsePKCS8PrivateKey(good)
-	caTmpl := foreignCertAndKey("pem combos")
+	caTmpl := foreignCertAndKey("pem combos", -1)
 	cblk, rest := pem.Decode(caTmpl)
 	_ = rest
 	csrPem := foreignCsr("pem combos")
